@@ -5,7 +5,7 @@ from common import Report
 
 MANIFEST = dict(
     technique='Coq non-interference proof over all operation histories (generic footprint framework; parser and tokenizer state transformers written from the code, parametric in the statement parser / lexer, failures and cancellations included) + per-method field read/write tables regenerated from go/ssa each run and checked against the model tables by complete evaluation + seeded history exploration on one real instance (probe vs fresh instance, reflect-level state comparison after every Reset/Release/Put/Get, per-field dirtiness trace compared with the Coq model)',
-    text='Theorems C08_no_carry_over / C08_tok_no_carry_over: for every statement parser (lexer) and every finite history of parse entry points, recovery parses, ApplyOptions, Reset, Release, Put/Get (tokenize, TokenizeContext, SetDialect, SetLogger, Reset, Put/Get) with arbitrary inputs, failures and cancellations, on an instance that was new or came out of the pool after arbitrary use, the outcome of any probe call equals its outcome on a new instance carrying only the options the current holder applied; C08_reset_is_fresh, C08_pool_get_is_fresh, C08_tok_pool_get_is_fresh: the state after Reset / Release / Put, and every instance the pool can hand out, is EQUAL to a newly constructed one (tokenizer Reset: equal to a new one with the holder\'s dialect, logger excepted). Proved once for any implementation that respects a footprint table satisfying a decidable read-before-write condition (C08_no_carry_over_any_implementation), and the model transformers are proved to respect their table; five _refuted theorems exhibit the carry-over for each repaired defect switched back on.',
+    text='Theorems C08_no_carry_over / C08_tok_no_carry_over: for every statement parser (lexer) and every finite history of parse entry points, recovery parses, ApplyOptions, Reset, Release, Put/Get (tokenize, TokenizeContext, SetDialect, SetLogger, Reset, Put/Get) with arbitrary inputs, failures and cancellations, on an instance that was new or came out of the pool after arbitrary use, the outcome of any probe call equals its outcome on a new instance carrying only the options the current holder applied; C08_depth_ctx_never_left_behind: after any history depth = 0 and ctx = nil; C08_reset_is_fresh, C08_pool_get_is_fresh, C08_tok_pool_get_is_fresh: the state after Reset / Release / Put, and every instance the pool can hand out, is EQUAL to a newly constructed one (tokenizer Reset: equal to a new one with the holder\'s dialect, logger excepted). Proved once for any implementation that respects a footprint table satisfying a decidable read-before-write condition (C08_no_carry_over_any_implementation), and the model transformers are proved to respect their table; five _refuted theorems exhibit the carry-over for each repaired defect switched back on.',
     note=common.BASE_NOTE + 'The model transformers are hand-written from the Go code; their footprint table is tied to the source by the regenerated go/ssa field-effect table (Inst_C08: every struct field known, no unmodelled incoming read, every boundary operation stores every field on every path) and to the behaviour by the history correspondence; statement parser and lexer are abstract (any function of the fields the table lets them read); sync.Pool modelled as handing out any previously put instance or a new one; the currentToken field is justified by a guard lemma (cursor bound checked first), not by the SSA table.',
     design='6/C08')
 
@@ -396,7 +396,7 @@ def run(tier):
             ok_inst, ok_props, full_ok, logs = common.coq_stage(
                 rp, ["theories/Inst/Inst_C08.vo", "theories/Proofs/ReuseP.vo"], "theories/Props/C08.v",
                 ["Props.C08.C08_no_carry_over_any_implementation", "Props.C08.C08_no_carry_over", "Props.C08.C08_reset_is_fresh",
-                 "Props.C08.C08_pool_get_is_fresh", "Props.C08.C08_tok_no_carry_over", "Props.C08.C08_tok_pool_get_is_fresh",
+                 "Props.C08.C08_pool_get_is_fresh", "Props.C08.C08_depth_ctx_never_left_behind", "Props.C08.C08_tok_no_carry_over", "Props.C08.C08_tok_pool_get_is_fresh",
                  "Props.C08.C08_tok_reset_is_fresh",
                  "Props.C08.C08_stale_positions_refuted (+ put_keeps_dialect, release_keeps_config, tok_put_keeps_dialect, tok_early_return _refuted)"],
                 inst_names=["Inst_C08.parser_fieldfx_ok", "Inst_C08.tokenizer_fieldfx_ok", "Inst_C08.depth_balanced_ok"])
@@ -458,7 +458,8 @@ def run(tier):
         found = targeted_search(rp, fx, rng, inputs, index)
         if not found:
             rp.violation({"kind": "proof", "theorem": "Inst_C08 (field-effect table regenerated from the source vs the model's footprint table)",
-                          "table_diff": fx.get("diff", [])[:20], "log": logs["inst"][-1500:]}, "inst_c08", no_input=True)
+                          "incompatible_cells": bad_cells(), "struct_fields": {"parser": fx.get("parser_fields"), "tokenizer": fx.get("tokenizer_fields")},
+                          "regenerated_table": fx.get("rows", []), "log": logs["inst"][-800:]}, "inst_c08", no_input=True)
     if ok_inst and not ok_props:
         rp.violation({"kind": "proof", "theorem": "Props/C08.v", "log": logs["props"][-3000:]}, "props_c08", no_input=True)
 
@@ -500,6 +501,18 @@ def run(tier):
     return rp.finish()
 
 
+def bad_cells():
+    """ask Coq which (method, field) cells of the regenerated table are incompatible with the model's footprint table"""
+    body = ("From Coq Require Import List String Bool.\nFrom GV Require Import Model.Reuse Gen.FieldFx.\nImport ListNotations.\n"
+            "Definition badp := Eval vm_compute in fx_bad_cells (ptable no_defects) pfield_name pop_methods pguard_r (fun _ _ => false) true parser_fx.\n"
+            "Definition badt := Eval vm_compute in fx_bad_cells (ttable no_tdefects) tfield_name top_methods tguard_r tguard_w false tokenizer_fx.\n"
+            "Print badp.\nPrint badt.\n")
+    ok, out, err = common.coq_cases("c08_badcells", body)
+    if not ok:
+        return ["(diagnostics unavailable: %s)" % err[-200:]]
+    return re.findall(r'\("([^"]+)"%string,\s*"([^"]+)"%string\)', out)
+
+
 def targeted_search(rp, fx, rng, inputs, index):
     """the regenerated table disagrees with the model: look for a concrete failing history with fresh randomness"""
     rng2 = random.Random(common.seed() + 7919)
@@ -510,7 +523,7 @@ def targeted_search(rp, fx, rng, inputs, index):
         if failing(o):
             small = shrink(hb[o["id"]], inputs)
             _, so = run_histories([small], inputs, timeout=600)
-            rp.violation({"kind": "oracle", "history": self_contained(small, inputs), "observed": (so[0] if so else o), "table_diff": fx.get("diff", [])[:20],
+            rp.violation({"kind": "oracle", "history": self_contained(small, inputs), "observed": (so[0] if so else o), "incompatible_cells": bad_cells(),
                           "explanation": "the field-effect table regenerated from the source no longer satisfies Inst_C08; this history shows the carry-over on the implementation"},
                          "table_history_%d" % o["id"])
             return True
